@@ -366,13 +366,16 @@ PROPS = {
                       "through the crate's era table, month-code validation and the library's date_from_codes returns the original "
                       "ISO date from each of the three field sets, both overflow modes; every reported year passes the crate's year "
                       "guard), C16_with_own_fields_identity (with() merges into the receiver's own year, month code and day and "
-                      "returns the receiver when given its own fields), C16_japanese_nonpositive_year (the one exception, proved as a fact of the code), C16_year_guard (years "
+                      "returns the receiver when given its own fields), C16_year_month_first_of_month (whenever to_plain_year_month "
+                      "succeeds the stored reference date is day 1 of the date's own calendar year and month), "
+                      "C16_japanese_nonpositive_year (the one exception, proved as a fact of the code), C16_year_guard (years "
                       "beyond +-300000 are RangeErrors before the library is asked), C16_with_calendar_keeps_iso. For ALL calendars: "
                       "C16_era_names_accepted (every era name handed to the library is a code that calendar accepts), "
                       "C16_reported_eras_accepted, C16_alias_unambiguous / C16_alias_resolves, C16_identifier_case_insensitive / "
                       "_lower_idem / _canonical / _roundtrip. Tie: every getter, the consecutive-day pair, the three rebuild routes, "
                       "from_partial on random field subsets and on every (calendar, era alias, era year around each bound) cell, "
-                      "PlainDate::with on random field subsets, to_plain_year_month and PlainYearMonth::from_partial, the "
+                      "PlainDate::with / PlainDateTime::with / PlainYearMonth::with on random field subsets, to_plain_year_month, the "
+                      "year-month getters and PlainYearMonth::from_partial, the "
                       "resolved library arguments (hook) and identifier parsing are compared with the model for the modelled "
                       "calendars; for chinese, dangi, hebrew, islamic, islamic-umalqura, japanext the crate's own resolution "
                       "is compared exactly, and the fields the implementation reports are handed to the driver, which evaluates "
